@@ -76,9 +76,25 @@ def one_spec(rep, rng, real):
         scn2.pop('gated', None)
         scn2.pop('free_sleep', None)
     configs.append(scn2)
+    # a quarter of the pairs: the second Lab (another context, hence other values; an empty storage) is handed the very
+    # task objects the first Lab has just run - nothing of the first run may leak into the second one's values
+    reuse = rng.random() < 0.25
+    if reuse:
+        scn['pickled_copies'] = scn2['pickled_copies'] = False
+        scn2['ctx'] = {'shared': 's-second', 'for_t0': 'd0', 'for_t1': 'd1', 'other': 'o-second', 'extra': 1}
+        scn2['pre'] = []
+        scn2['bust'] = False
     results = []
+    first_out = None
     for i, c in enumerate(configs):
-        out = engine.run_dag(c)
+        if reuse and i == 1 and (first_out is None or first_out.exc is not None or getattr(first_out, 'aborted', None)):
+            break
+        out = engine.run_dag(c, keep=(reuse and i == 0),
+                             prebuilt=((first_out.built, first_out.req) if reuse and i == 1 else None))
+        if reuse and i == 0:
+            first_out = out
+        if reuse and i == 1:
+            rep.count('second_runs_of_the_same_task_objects_under_another_context')
         if getattr(out, 'aborted', None):
             if out.aborted.startswith('spin'):
                 rep.violation('never-returns', f'config{i}: run_tasks never returns on an all-success DAG: {out.aborted}',
@@ -102,7 +118,9 @@ def one_spec(rep, rng, real):
             results.append(out.result_list)
         if i == 0:
             rep.sample(scn_summary(c, out))
-    if len(results) == 2:
+    if first_out is not None:
+        engine.cleanup(first_out)
+    if len(results) == 2 and not reuse:
         rep.count('config_pairs_compared')
         if results[0] != results[1]:
             rep.violation('config-dependent', f'same spec/requested gave different dicts under two configurations: '
@@ -196,6 +214,7 @@ def run_shard(rep):
     rep.require('config_pairs_compared', 20 if rep.tier == 'quick' else 500)
     rep.require('runs_fork', 4)
     rep.require('twin_pairs', 100)
+    rep.require('second_runs_of_the_same_task_objects_under_another_context', 50)
     for j in range(rep.shard, cfg.get('n_twins', 400), rep.nshards):
         twin_case(rep, scenario_rng(rep.seed, 'C01twin', j))
     jobs = [('real', j) for j in range(cfg['n_spec_real'])] + [('sim', j) for j in range(cfg['n_spec_sim'])]
